@@ -254,10 +254,7 @@ func checkArrayTrigger(c *core.Ctx) {
 		if !ok || fs.Cond == nil {
 			return true
 		}
-		cond := core.ExprStr(fs.Cond)
-		init := core.ExprStr(fs.Init)
-		post := core.ExprStr(fs.Post)
-		if strings.HasSuffix(cond, ".count") && strings.Contains(cond, " < ") && strings.HasSuffix(init, ":= 0") && strings.HasSuffix(post, "++") {
+		if cnt, ok := loopCount(fs); ok && strings.HasSuffix(cnt, ".count") {
 			// the body appends the item's value
 			ast.Inspect(fs.Body, func(m ast.Node) bool {
 				if call, ok := m.(*ast.CallExpr); ok && core.ExprStr(call.Fun) == "append" && len(call.Args) == 2 && strings.HasSuffix(core.ExprStr(call.Args[1]), ".value") {
